@@ -42,7 +42,7 @@ func TestGenCase(t *testing.T) {
 			if !(strings.HasPrefix(a.Note, "partial .md in .html") || sameFormats(a.Note)) {
 				t.Errorf("scope not respected: %s", a.Note)
 			}
-			if strings.Replace(a.B.Files[a.B.Root], "{% var x_ = render", "{{ render", 1) == a.B.Files[a.B.Root] {
+			if !strings.Contains(a.B.Files[a.B.Root], "{% var x_ = render") || strings.Contains(a.A.Files[a.A.Root], "x_") {
 				t.Errorf("side B is not the variable form")
 			}
 		case "extends-vs-expanded":
@@ -58,7 +58,7 @@ func TestGenCase(t *testing.T) {
 			}
 		}
 	}
-	for _, r := range []string{"show-vs-var", "render-vs-alone", "md-render-vs-convert", "extends-vs-expanded", "import-vs-local", "default-missing", "default-present"} {
+	for _, r := range []string{"show-vs-var", "render-repeated", "render-vs-alone", "md-render-vs-convert", "extends-vs-expanded", "import-vs-local", "default-missing", "default-present"} {
 		if rels[r] == 0 {
 			t.Errorf("relation %s never generated", r)
 		}
